@@ -537,7 +537,7 @@ func C19(tier string) {
 		}
 		run.Sample(map[string]any{"type": d.name, "history": d.describe(deepest)})
 		// E1 over single sets
-		values := []string{"", "a", "b", "b c", `"q"`, "x  y", `x\" y`, "deleted", "dev"}
+		values := []string{"", "a", "b", "b c", `"q"`, "x  y", `x\" y`, `a " b`, "deleted", "dev"}
 		var names []string
 		if isDep {
 			names = []string{"Dev", "Opt", "Test", "Scope", "KnownAs", "Selector"}
@@ -545,7 +545,7 @@ func C19(tier string) {
 			names = []string{"Blocked", "Deleted", "Redirect", "Tags", "DerivedFrom"}
 		}
 		if quick {
-			values = []string{"", "a", "b c", `"q"`, "x  y", `x\" y`, "deleted", "dev"}
+			values = []string{"", "a", "b c", `"q"`, "x  y", `x\" y`, `a " b`, "deleted", "dev"}
 		}
 		sets := d.allSets(values, names)
 		vals := make([]attrVal, len(sets))
@@ -618,6 +618,48 @@ func C19(tier string) {
 				}
 			}
 			transitions += int64(n) * int64(n)
+			// the largest key a set supports (63): the key bitmask then uses its top bit. Every set of a prefix of the
+			// product with and without it, all pairs, same laws.
+			hi := dep.AttrKey(63)
+			var ext []dep.Type
+			var extCanon []string
+			for i := 0; i < n && i < 120; i++ {
+				a, b := vals[i].d.Clone(), vals[i].d.Clone()
+				b.AddAttr(hi, "v")
+				ext = append(ext, a, b)
+				extCanon = append(extCanon, canon[i], canon[i]+"#63")
+			}
+			xm := make([][]int8, len(ext))
+			for i := range ext {
+				xm[i] = make([]int8, len(ext))
+				for j := range ext {
+					xm[i][j] = int8(core.Sign(ext[i].Compare(ext[j])))
+				}
+			}
+			for i := range ext {
+				for j := range ext {
+					if xm[i][j] != -xm[j][i] || (xm[i][j] == 0) != (extCanon[i] == extCanon[j]) {
+						run.Fail(core.Join("hikey", d.name, sets[i/2].witness(), strconv.Itoa(i%2), sets[j/2].witness(), strconv.Itoa(j%2)), fmt.Sprintf("with key 63: Compare(a,b)=%d Compare(b,a)=%d, same contents=%v", xm[i][j], xm[j][i], extCanon[i] == extCanon[j]))
+					}
+				}
+			}
+			if bad := certificateMatrix(xm); len(bad) > 0 {
+			hscan:
+				for i := range ext {
+					for j := range ext {
+						if xm[i][j] > 0 {
+							continue
+						}
+						for k := range ext {
+							if xm[j][k] <= 0 && xm[i][k] > 0 {
+								run.Fail(core.Join("hikey3", d.name, sets[i/2].witness(), strconv.Itoa(i%2), sets[j/2].witness(), strconv.Itoa(j%2), sets[k/2].witness(), strconv.Itoa(k%2)), "with key 63: a <= b and b <= c but a > c")
+								break hscan
+							}
+						}
+					}
+				}
+			}
+			transitions += int64(len(ext)) * int64(len(ext))
 		} else {
 			for i := 0; i < n; i++ {
 				for j := 0; j < n; j++ {
@@ -701,6 +743,33 @@ func c19Replay(w string) (bool, string) {
 			}
 		}
 		return len(rel) == 0, strings.Join(rel, "; ")
+	case "hikey":
+		d := c19Domain(isDep, false)
+		mk := func(w, hi string) (dep.Type, string) {
+			cs := c19ParseSetWitness(w)
+			t := d.build(cs, false).d
+			c := attrModel(cs.assign).canon()
+			if hi == "1" {
+				t.AddAttr(dep.AttrKey(63), "v")
+				c += "#63"
+			}
+			return t, c
+		}
+		a, ca := mk(p[2], p[3])
+		b, cb := mk(p[4], p[5])
+		c1, c2 := core.Sign(a.Compare(b)), core.Sign(b.Compare(a))
+		return c1 == -c2 && (c1 == 0) == (ca == cb), fmt.Sprintf("Compare=%d/%d same contents=%v", c1, c2, ca == cb)
+	case "hikey3":
+		d := c19Domain(isDep, false)
+		var t [3]dep.Type
+		for i := 0; i < 3; i++ {
+			t[i] = d.build(c19ParseSetWitness(p[2+2*i]), false).d
+			if p[3+2*i] == "1" {
+				t[i].AddAttr(dep.AttrKey(63), "v")
+			}
+		}
+		ab, bc, ac := core.Sign(t[0].Compare(t[1])), core.Sign(t[1].Compare(t[2])), core.Sign(t[0].Compare(t[2]))
+		return !(ab <= 0 && bc <= 0 && ac > 0), fmt.Sprintf("cmp(a,b)=%d cmp(b,c)=%d cmp(a,c)=%d", ab, bc, ac)
 	case "copyadd":
 		d := c19Domain(isDep, false)
 		msg := d.copyAdd(c19ParseSetWitness(p[4]), p[2], p[3])
